@@ -48,6 +48,25 @@ DOC_999 = join_segments([ISA5, 'GS*FA*SENDERGS*RECEIVERGS*20040608*1333*17*X*005
                          'AK1*HC*17*005010X222A1', 'AK2*837*0001*005010X222A1', 'IK3*NM1*4**8', 'IK4*3*66*7*ZZ', 'IK5*R*5',
                          'AK9*R*1*1*0', 'SE*8*0001', 'GE*1*17', 'IEA*1*000000001'])
 VALID['997'] = DOC_997
+
+
+def _multi(isa, gs_ver, st_tail, ak_tail, k3, k4, k5):
+    """two interchanges, each with two functional groups of two transaction sets (same ids repeat at every level)"""
+    segs = []
+    for ic in (1, 2):
+        segs.append(isa.replace('000000001', '00000000%i' % ic))
+        for g in (1, 2):
+            segs.append('GS*FA*SENDERGS*RECEIVERGS*20040608*1333*%i*X*%s' % (g, gs_ver))
+            for s in (1, 2):
+                segs += ['ST*997*000%i%s' % (s, st_tail), 'AK1*HC*17' + ak_tail, 'AK2*837*0001' + ak_tail, k3 + '*NM1*4**8',
+                         k4 + '*3*66*7*ZZ', k5 + '*R*5', 'AK9*R*1*1*0', 'SE*8*000%i' % s]
+            segs.append('GE*2*%i' % g)
+        segs.append('IEA*2*00000000%i' % ic)
+    return join_segments(segs)
+
+
+VALID['997_multi'] = _multi(ISA, '004010', '', '', 'AK3', 'AK4', 'AK5')
+VALID['999_multi'] = _multi(ISA5, '005010X231', '*005010X231', '*005010X222A1', 'IK3', 'IK4', 'IK5').replace('ST*997', 'ST*999')
 VALID['999'] = DOC_999
 
 
